@@ -196,3 +196,81 @@ def case_of(family, warm, judged, warm_op):
     c = {"op": "history", "family": family, "warm_op": warm_op, "warm": warm}
     c.update(judged)
     return c
+
+
+# ----------------------------------------------------------------------------------
+# round 4: the NON-temporal scalar kinds
+# ----------------------------------------------------------------------------------
+# Numbers that are equal compare AND hash equal across spellings and across classes (1 == True == 1.0 == Decimal('1.00')
+# == Fraction(1, 1); Decimal('0.5') == Fraction(1, 2) == 0.5; 0.0 == -0.0 == Decimal('-0')), an IntEnum member equals its
+# int, a (str, Enum) member equals its str, pure paths of one flavour are equal across their concrete / pure classes and
+# -- Windows flavour -- across letter case.  Each GROUP below lists value specs that are pairwise == and hash-equal (checked
+# on the live interpreter when the history is built; a pair that is not is outside the clause and skipped) although their
+# wire forms differ: the value itself for int / float / bool, str(v) for Decimal / Fraction / path, the member's value for
+# an enum.  A history is  warm_op(w); then every emitting operation on v  for every ordered pair of a group.
+
+import decimal as _decimal
+import fractions as _fractions
+
+SCALAR_OPS = ["marshal", "unmarshal_str", "unmarshal_bytes"]
+# canonical_text: unmarshal(type(w), str(w)) -- the text -> value direction as a warm-up
+SCALAR_WARM_OPS = SCALAR_OPS + ["canonical_text"]
+
+
+def _I(n): return {"kind": "int", "value": str(n)}                                   # noqa: E704
+def _B(b): return {"kind": "bool", "value": bool(b)}                                 # noqa: E704
+def _F(x): return {"kind": "float", "value": float(x).hex()}                         # noqa: E704
+def _D(*ts): return [{"kind": "decimal", "value": t} for t in ts]                    # noqa: E704
+def _Q(t): return {"kind": "fraction", "value": t}                                   # noqa: E704
+def _E(cls, name): return {"kind": "enum", "value": [cls, name]}                     # noqa: E704
+def _P(cls, s): return {"kind": "path", "value": [cls, s]}                           # noqa: E704
+def _S(s): return {"kind": "str", "value": s}                                        # noqa: E704
+
+
+def scalar_groups(tier: str, rng: random.Random):
+    g = {
+        "num:zero": [_I(0), _B(False), _F(0.0), _F(-0.0), *_D("0", "-0", "0.0", "0.00", "0E+2", "0E-3"), _Q("0")],
+        "num:one": [_I(1), _B(True), _F(1.0), *_D("1", "1.0", "1.00", "1E+0", "10E-1", "0.1E+1"), _Q("1")],
+        "num:two": [_I(2), _F(2.0), *_D("2", "2.0", "2.00", "2E+0", "0.2E+1"), _Q("2")],
+        "num:seven": [_I(7), _F(7.0), _E("EIntEnum", "x"), *_D("7", "7.0", "7E+0", "0.7E+1"), _Q("7")],
+        "num:minus-three": [_I(-3), _F(-3.0), _E("EIntEnum", "y"), *_D("-3", "-3.0", "-0.3E+1", "-30E-1"), _Q("-3")],
+        "num:half": [_F(0.5), *_D("0.5", "0.50", "5E-1", "0.5000"), _Q("1/2")],
+        "num:quarter": [_F(0.25), *_D("0.25", "0.250", "25E-2"), _Q("1/4")],
+        "num:minus-2.5": [_F(-2.5), *_D("-2.5", "-2.50", "-25E-1"), _Q("-5/2")],
+        "num:3000": [_I(3000), _F(3000.0), *_D("3000", "3E+3", "3.0E+3", "3000.00", "0.3E+4"), _Q("3000")],
+        "num:tenth(decimal)": [*_D("0.1", "0.10", "1E-1"), _Q("1/10")],
+        "num:tenth(float)": [_F(0.1), *_D(str(_decimal.Decimal(0.1))), _Q(str(_fractions.Fraction(0.1)))],
+        "num:2**70": [_I(2 ** 70), _F(float(2 ** 70)), *_D(str(2 ** 70), str(2 ** 70) + ".0", "1.180591620717411303424E+21"),
+                      _Q(str(2 ** 70))],
+        "num:1e22": [_I(10 ** 22), _F(1e22), *_D("1E+22", "1" + "0" * 22, "1.0E+22"), _Q(str(10 ** 22))],
+        "path:posix": [_P("PurePosixPath", "a/b"), _P("PosixPath", "a/b"), _P("PurePosixPath", "a//b/")],
+        "path:posix-abs": [_P("PurePosixPath", "/my/path"), _P("Path", "/my/path")],
+        "path:windows-case": [_P("PureWindowsPath", "A/b"), _P("PureWindowsPath", "a\\B"), _P("PureWindowsPath", "a/b")],
+        "path:windows-drive": [_P("PureWindowsPath", "C:/X/y.txt"), _P("PureWindowsPath", "c:\\x\\Y.TXT")],
+        "str:str-enum(a)": [_S("a"), _E("ESMix", "a")],
+        "str:str-enum(5)": [_S("5"), _E("ESMix", "five")],
+    }
+    with _decimal.localcontext() as ctx:
+        ctx.prec = 60
+        for i in range(4 if tier != "thorough" else 40):       # seeded dyadic rationals n / 2**j: exact as float and Decimal
+            n, j = rng.choice([rng.randint(-10 ** 6, 10 ** 6), rng.randint(-99, 99)]), rng.randint(0, 6)
+            q = _fractions.Fraction(n, 2 ** j)
+            d = _decimal.Decimal(n) / _decimal.Decimal(2 ** j)
+            t = str(d)
+            group = [_F(n / 2 ** j), *_D(t, t + ("0" if "." in t else ".0"), "{:E}".format(d)), _Q(str(q))]
+            if q.denominator == 1:
+                group.insert(0, _I(int(q)))
+            g[f"num:seeded-{i}({q})"] = group
+    return g
+
+
+def scalar_histories(tier: str, seed: int):
+    """(family, warm spec, judged spec) for every ordered pair of distinct specs of every group"""
+    rng = random.Random(seed + 405)
+    out = []
+    for name, group in scalar_groups(tier, rng).items():
+        for w in group:
+            for v in group:
+                if w != v:
+                    out.append((f"scalar/{name}", w, v))
+    return out
